@@ -93,7 +93,7 @@ Theorem C02_resources_present_iff : forall e resolved rs rs', resolve_resources 
     | None => lookup id rs' = None
     | Some r =>
         match gate resolved r with
-        | Ok true => exists r', resolve e r = Ok r' /\ lookup id rs' = Some r'
+        | Ok true => exists r', resolve_resource e r = Ok r' /\ lookup id rs' = Some r'
         | Ok false => lookup id rs' = None
         | Err _ => False
         end
